@@ -385,7 +385,8 @@ def main(argv):
     for f in new_findings[:5]:
         path = write_replay(pid, "failing-input", {"stream": f.get("stream", ""), "seed": seed, "config": f.get("config", ""), "ops": f["ops"],
                                                    "expected": f.get("expected", ""), "observed": f.get("observed", ""), "note": f["what"],
-                                                   "signature": f["signature"], "broken": broken[:10]})
+                                                   "signature": f["signature"], "broken": broken[:10],
+                                                   "shrunk_from": f.get("shrunk_from", 0)})
         lines.append("VIOLATION property=%s replay=%s" % (pid, path))
         violations += 1
     if broken and not new_findings:
